@@ -1,9 +1,24 @@
 //! C16 contracts on the verbatim unsync mpsc (child module: may name private fields of Sender/Receiver/Shared).
-//! Wakers are static-vtable RawWakers counting wakes per task in a static table (no Arc, no drop glue);
-//! endpoints are `mem::forget`-ed at the end of each harness (drop paths have their own harness).
+//! Wakers are static-vtable RawWakers counting wakes per task in a static table (no Arc).
+//! `<Waker as Drop>::drop` is STUBBED by a no-op on every harness: CBMC otherwise encodes the vtable function-pointer
+//! call of every (infeasible) Waker drop inside `Rc<RefCell<Shared>>`'s drop glue and runs out of memory (65 GB measured
+//! on a single try_send).  The stub is semantics-preserving here: the harness wakers' drop function is a no-op.
 use std::task::{RawWaker, RawWakerVTable};
 
 use super::*;
+
+// ---- stubs for std's Waker dispatch (every call through a RawWakerVTable function pointer makes CBMC consider every
+// address-taken `unsafe fn(*const ())` of the binary, tokio's included): the harness wakers are identified by their
+// vtable address instead.  Trusted: std::task::Waker dispatches wake/clone/drop through its vtable.
+fn noop_waker_drop(_w: &mut Waker) {}
+fn stub_waker_wake(w: Waker) {
+    let vt = w.vtable() as *const RawWakerVTable;
+    unsafe {
+        if vt == &VT0 as *const _ { WAKES[0] += 1; } else if vt == &VT1 as *const _ { WAKES[1] += 1; } else if vt == &VT2 as *const _ { WAKES[2] += 1; }
+    }
+    std::mem::forget(w);
+}
+fn stub_waker_clone(w: &Waker) -> Waker { unsafe { Waker::new(w.data(), w.vtable()) } }
 
 const TASKS: usize = 3;
 static mut WAKES: [u8; TASKS] = [0; TASKS];
@@ -22,12 +37,14 @@ fn waker(id: usize) -> Waker {
     unsafe { Waker::from_raw(RawWaker::new(core::ptr::null(), vt)) }
 }
 fn wakes(id: usize) -> u8 { unsafe { WAKES[id] } }
-const RX: usize = 0; // task id of the receiver task; senders are 1, 2
+const RX: usize = 0; // task id of the receiver task; sender tasks are A = 1, B = 2
+const A: usize = 1;
+const B: usize = 2;
 
-/// try_send on a bounded channel holding `len0` items (capacity 2): appends at the back iff not full, otherwise hands the
+/// try_send on a bounded channel holding LEN0 items (capacity 2): appends at the back iff not full, otherwise hands the
 /// item back unchanged; a registered receiver waker is woken exactly once and cleared.
 fn try_send_step<const LEN0: usize>() {
-    let (tx, mut rx) = bounded::<u8>(2);
+    let (tx, rx) = bounded::<u8>(2);
     let (a, b): (u8, u8) = (kani::any(), kani::any());
     if LEN0 >= 1 { tx.try_send(a).unwrap(); }
     if LEN0 >= 2 { tx.try_send(b).unwrap(); }
@@ -51,6 +68,127 @@ fn try_send_step<const LEN0: usize>() {
     std::mem::forget(tx);
     std::mem::forget(rx);
 }
-#[kani::proof] #[kani::unwind(4)] pub(crate) fn try_send_len0() { try_send_step::<0>() }
-#[kani::proof] #[kani::unwind(4)] pub(crate) fn try_send_len1() { try_send_step::<1>() }
-#[kani::proof] #[kani::unwind(4)] pub(crate) fn try_send_len2() { try_send_step::<2>() }
+#[kani::proof] #[kani::unwind(4)] #[kani::stub(<std::task::Waker as std::ops::Drop>::drop, noop_waker_drop)] #[kani::stub(std::task::Waker::wake, stub_waker_wake)] #[kani::stub(<std::task::Waker as std::clone::Clone>::clone, stub_waker_clone)]
+pub(crate) fn try_send_len0() { try_send_step::<0>() }
+#[kani::proof] #[kani::unwind(4)] #[kani::stub(<std::task::Waker as std::ops::Drop>::drop, noop_waker_drop)] #[kani::stub(std::task::Waker::wake, stub_waker_wake)] #[kani::stub(<std::task::Waker as std::clone::Clone>::clone, stub_waker_clone)]
+pub(crate) fn try_send_len1() { try_send_step::<1>() }
+#[kani::proof] #[kani::unwind(4)] #[kani::stub(<std::task::Waker as std::ops::Drop>::drop, noop_waker_drop)] #[kani::stub(std::task::Waker::wake, stub_waker_wake)] #[kani::stub(<std::task::Waker as std::clone::Clone>::clone, stub_waker_clone)]
+pub(crate) fn try_send_len2() { try_send_step::<2>() }
+
+/// poll_recv: pops the front (FIFO), wakes at most one registered sender; empty + live sender => Pending and the
+/// receiver's waker is registered; empty + no sender => Ready(None).
+fn poll_recv_step<const LEN0: usize>() {
+    let (tx, mut rx) = bounded::<u8>(2);
+    let (a, b): (u8, u8) = (kani::any(), kani::any());
+    if LEN0 >= 1 { tx.try_send(a).unwrap(); }
+    if LEN0 >= 2 { tx.try_send(b).unwrap(); }
+    let sender_waiting: bool = kani::any();
+    if sender_waiting { rx.strong.borrow_mut().send_wakers.push(waker(A)); }
+    let senders_alive: bool = kani::any();
+    let mut tx = Some(tx);
+    if !senders_alive { let mut t = tx.take().unwrap(); t.close_this_sender(); std::mem::forget(t); }
+    let w = waker(RX);
+    let cx = Context::from_waker(&w);
+    let r = rx.poll_recv(&cx);
+    {
+        let sh = rx.strong.borrow();
+        if LEN0 >= 1 {
+            kani::assert(r == Poll::Ready(Some(a)), "C16:recv_returns_the_oldest_item");
+            kani::assert(sh.buffer.len() == LEN0 - 1 && (LEN0 < 2 || sh.buffer[0] == b), "C16:recv_removes_exactly_the_front");
+            kani::assert(wakes(A) == sender_waiting as u8 && sh.send_wakers.is_empty(), "C16:freed_slot_wakes_a_registered_sender");
+        } else if !senders_alive {
+            kani::assert(r == Poll::Ready(None), "C16:recv_reports_closed_iff_empty_and_no_sender");
+        } else {
+            kani::assert(r == Poll::Pending && sh.recv_waker.is_some(), "C16:recv_pends_and_registers_waker_when_empty");
+            kani::assert(wakes(A) == 0, "C16:no_spurious_sender_wake");
+        }
+    }
+    std::mem::forget(tx);
+    std::mem::forget(rx);
+}
+#[kani::proof] #[kani::unwind(4)] #[kani::stub(<std::task::Waker as std::ops::Drop>::drop, noop_waker_drop)] #[kani::stub(std::task::Waker::wake, stub_waker_wake)] #[kani::stub(<std::task::Waker as std::clone::Clone>::clone, stub_waker_clone)]
+pub(crate) fn poll_recv_len0() { poll_recv_step::<0>() }
+#[kani::proof] #[kani::unwind(4)] #[kani::stub(<std::task::Waker as std::ops::Drop>::drop, noop_waker_drop)] #[kani::stub(std::task::Waker::wake, stub_waker_wake)] #[kani::stub(<std::task::Waker as std::clone::Clone>::clone, stub_waker_clone)]
+pub(crate) fn poll_recv_len1() { poll_recv_step::<1>() }
+#[kani::proof] #[kani::unwind(4)] #[kani::stub(<std::task::Waker as std::ops::Drop>::drop, noop_waker_drop)] #[kani::stub(std::task::Waker::wake, stub_waker_wake)] #[kani::stub(<std::task::Waker as std::clone::Clone>::clone, stub_waker_clone)]
+pub(crate) fn poll_recv_len2() { poll_recv_step::<2>() }
+
+/// Sink::poll_ready: Ready(Ok) iff there is room (no change), Pending + waker registered when full, Err(Closed) when the
+/// receiver is gone; start_send then appends.
+#[kani::proof] #[kani::unwind(4)] #[kani::stub(<std::task::Waker as std::ops::Drop>::drop, noop_waker_drop)] #[kani::stub(std::task::Waker::wake, stub_waker_wake)] #[kani::stub(<std::task::Waker as std::clone::Clone>::clone, stub_waker_clone)]
+pub(crate) fn sink_poll_ready_step() {
+    let (mut tx, rx) = bounded::<u8>(1);
+    let full: bool = kani::any();
+    let a: u8 = kani::any();
+    if full { tx.try_send(a).unwrap(); }
+    let w = waker(A);
+    let mut cx = Context::from_waker(&w);
+    let r = Pin::new(&mut tx).poll_ready(&mut cx);
+    {
+        let sh = rx.strong.borrow();
+        if full {
+            kani::assert(r.is_pending() && sh.send_wakers.len() == 1, "C16:full_channel_pends_and_registers_the_sender");
+        } else {
+            kani::assert(matches!(r, Poll::Ready(Ok(()))) && sh.send_wakers.is_empty(), "C16:room_means_ready_without_registration");
+        }
+        kani::assert(sh.buffer.len() == full as usize, "C16:poll_ready_does_not_touch_the_queue");
+    }
+    std::mem::forget(tx);
+    std::mem::forget(rx);
+}
+
+/// The "no stranded sender" core, from the INITIAL state (bounded history, capacity 1, sender tasks A and B, receiver):
+/// ghost `waiting[t]` = t's last poll_ready answered Pending and t was not woken since.  Obligation I2 (from the property):
+/// whenever a receive frees a slot while some task is waiting, a *waiting* task is woken by that receive.
+/// The history is the interleaving class with one spurious re-poll (allowed by the Future/Sink contract):
+/// fill; B polls (Pending); A polls (Pending) k times, k in {1,2}; receive; the woken task sends; receive.
+#[kani::proof] #[kani::unwind(5)] #[kani::stub(<std::task::Waker as std::ops::Drop>::drop, noop_waker_drop)] #[kani::stub(std::task::Waker::wake, stub_waker_wake)] #[kani::stub(<std::task::Waker as std::clone::Clone>::clone, stub_waker_clone)]
+pub(crate) fn no_stranded_sender_history() {
+    let (tx_a, mut rx) = bounded::<u8>(1);
+    let mut tx_a = tx_a;
+    let mut tx_b = tx_a.clone();
+    let (wa, wb, wr) = (waker(A), waker(B), waker(RX));
+    let mut waiting = [false; TASKS];
+    tx_a.try_send(kani::any()).unwrap();                       // channel full
+    let mut cxb = Context::from_waker(&wb);
+    kani::assert(Pin::new(&mut tx_b).poll_ready(&mut cxb).is_pending(), "C16:full_channel_pends_and_registers_the_sender");
+    waiting[B] = true;
+    let repolls: u8 = kani::any();
+    kani::assume(repolls >= 1 && repolls <= 2);
+    let mut i = 0;
+    while i < repolls {
+        let mut cxa = Context::from_waker(&wa);
+        kani::assert(Pin::new(&mut tx_a).poll_ready(&mut cxa).is_pending(), "C16:full_channel_pends_and_registers_the_sender");
+        waiting[A] = true;
+        i += 1;
+    }
+    // two receive / refill rounds
+    let mut round = 0;
+    while round < 2 {
+        let before = (wakes(A), wakes(B));
+        let cxr = Context::from_waker(&wr);
+        let got = rx.poll_recv(&cxr);
+        kani::assert(matches!(got, Poll::Ready(Some(_))), "C16:recv_returns_the_oldest_item");
+        let woke_a = wakes(A) > before.0;
+        let woke_b = wakes(B) > before.1;
+        if waiting[A] || waiting[B] {
+            kani::assert((woke_a && waiting[A]) || (woke_b && waiting[B]), "C16:freed_slot_wakes_a_waiting_sender_none_stranded");
+        }
+        // the woken waiting task runs: polls ready (must succeed: a slot is free) and sends
+        if woke_a && waiting[A] {
+            waiting[A] = false;
+            let mut cxa = Context::from_waker(&wa);
+            kani::assert(matches!(Pin::new(&mut tx_a).poll_ready(&mut cxa), Poll::Ready(Ok(()))), "C16:woken_sender_finds_room");
+            Pin::new(&mut tx_a).start_send(kani::any()).unwrap();
+        } else if woke_b && waiting[B] {
+            waiting[B] = false;
+            let mut cxb = Context::from_waker(&wb);
+            kani::assert(matches!(Pin::new(&mut tx_b).poll_ready(&mut cxb), Poll::Ready(Ok(()))), "C16:woken_sender_finds_room");
+            Pin::new(&mut tx_b).start_send(kani::any()).unwrap();
+        }
+        round += 1;
+    }
+    std::mem::forget(tx_a);
+    std::mem::forget(tx_b);
+    std::mem::forget(rx);
+}
